@@ -335,3 +335,333 @@ proof fn prop_c06_extremes(rs: Seq<FoundDateTimeKind>, j: int)
         entry_key(rs[j]) <= entry_key(rs[rs.len() - 1]),
 {
 }
+
+// C04's "exists a year" for an instant within two days of calendar year y, in terms of the six start/end instants of the
+// years y-1, y, y+1 (the window the search looks at)
+proof fn lemma_alt_near(a: AlternateTime, u: int, y: int)
+    requires
+        alt_wf(a),
+        near_year(u, y),
+    ensures
+        start_first(a) ==> (in_dst(a, u) <==> ((alt_s(a, y - 1) <= u < alt_e(a, y - 1)) || (alt_s(a, y) <= u < alt_e(a, y)) || (alt_s(a, y + 1) <= u < alt_e(a, y + 1)))),
+        !start_first(a) ==> (in_dst(a, u) <==> (u < alt_e(a, y - 1) || (alt_s(a, y - 1) <= u < alt_e(a, y)) || (alt_s(a, y) <= u < alt_e(a, y + 1)) || alt_s(a, y + 1) <= u)),
+        !alt_defect_class(a, u) || !(forall|yy: int| alt_e(a, yy) < #[trigger] alt_s(a, yy)),
+{
+    hide(alt_s);
+    hide(alt_e);
+    hide(dby);
+    hide(alt_wf);
+    assert(order_stable(a)) by {
+        reveal(alt_wf);
+    }
+    lemma_alt_window(a, y - 2);
+    lemma_alt_window(a, y - 1);
+    lemma_alt_window(a, y);
+    lemma_alt_window(a, y + 1);
+    lemma_alt_window(a, y + 2);
+    lemma_dby_step(y - 3);
+    lemma_dby_step(y - 2);
+    lemma_dby_step(y - 1);
+    lemma_dby_step(y);
+    lemma_dby_step(y + 1);
+    lemma_dby_step(y + 2);
+    if start_first(a) {
+        if in_dst(a, u) {
+            let yy = choose|yy: int| alt_s(a, yy) <= u < #[trigger] alt_e(a, yy);
+            lemma_alt_window(a, yy);
+            if yy <= y - 2 {
+                lemma_dby_mono(yy, y - 2);
+            }
+            if yy >= y + 2 {
+                lemma_dby_mono(y + 2, yy);
+            }
+            assert(y - 1 <= yy <= y + 1);
+        }
+    } else {
+        assert(end_first(a));
+        if in_dst(a, u) {
+            let yy = choose|yy: int| #[trigger] alt_s(a, yy) <= u < alt_e(a, yy + 1);
+            lemma_alt_window(a, yy);
+            lemma_alt_window(a, yy + 1);
+            if yy <= y - 3 {
+                lemma_dby_mono(yy + 1, y - 2);
+            }
+            if yy >= y + 2 {
+                lemma_dby_mono(y + 2, yy);
+            }
+            assert(y - 2 <= yy <= y + 1);
+        }
+        // the open-ended first and last segments: S(y-2) <= u < E(y+2)
+        assert(alt_s(a, y - 2) <= u);
+        assert(u < alt_e(a, y + 2));
+        if u < alt_e(a, y - 1) {
+            assert(alt_s(a, y - 2) <= u < alt_e(a, y - 2 + 1));
+        }
+        if alt_s(a, y + 1) <= u {
+            assert(alt_s(a, y + 1) <= u < alt_e(a, y + 1 + 1));
+        }
+    }
+}
+
+// under strict interleaving the walk's instants strictly ascend, and the run-time sortedness test decides start-first / end-first
+proof fn lemma_rule_times(a: AlternateTime, y: int)
+    requires
+        alt_wf(a),
+        strict_interleaving(a),
+        -2147483646 <= y <= 2147483645,
+    ensures
+        start_first(a) ==> times_increasing(rule_times(a, y, true)),
+        !start_first(a) ==> times_increasing(rule_times(a, y, false)) && alt_e(a, y - 1) < alt_s(a, y - 1),
+        start_first(a) <==> (alt_s(a, y - 1) <= alt_e(a, y - 1) && alt_e(a, y - 1) <= alt_s(a, y) && alt_s(a, y) <= alt_e(a, y) && alt_e(a, y) <= alt_s(a, y + 1)
+            && alt_s(a, y + 1) <= alt_e(a, y + 1)),
+        alt_s(a, y + 1) < i64::MAX,
+        alt_e(a, y + 1) < i64::MAX,
+{
+    hide(alt_s);
+    hide(alt_e);
+    hide(dby);
+    hide(alt_wf);
+    lemma_alt_window(a, y + 1);
+    lemma_dby_bounds(y + 1);
+    if forall|yy: int| alt_s(a, yy) < #[trigger] alt_e(a, yy) && alt_e(a, yy) < alt_s(a, yy + 1) {
+        assert(alt_s(a, y - 1) < alt_e(a, y - 1) && alt_e(a, y - 1) < alt_s(a, y - 1 + 1));
+        assert(alt_s(a, y) < alt_e(a, y) && alt_e(a, y) < alt_s(a, y + 1));
+        assert(alt_s(a, y + 1) < alt_e(a, y + 1));
+        assert forall|yy: int| alt_s(a, yy) <= #[trigger] alt_e(a, yy) by {
+            assert(alt_s(a, yy) < alt_e(a, yy));
+        }
+    } else {
+        assert(forall|yy: int| alt_e(a, yy) < #[trigger] alt_s(a, yy) && alt_s(a, yy) < alt_e(a, yy + 1));
+        assert(alt_e(a, y - 1) < alt_s(a, y - 1) && alt_s(a, y - 1) < alt_e(a, y - 1 + 1));
+        assert(alt_e(a, y) < alt_s(a, y) && alt_s(a, y) < alt_e(a, y + 1));
+        assert(alt_e(a, y + 1) < alt_s(a, y + 1));
+        assert(!start_first(a));
+    }
+}
+
+// the segment an instant near year y lies in decides whether the rule puts it on daylight time
+proof fn lemma_segment(a: AlternateTime, y: int, u: int, k: int)
+    requires
+        alt_wf(a),
+        strict_interleaving(a),
+        -2147483646 <= y <= 2147483645,
+        near_year(u, y),
+        0 <= k <= 6,
+        k > 0 ==> rule_times(a, y, start_first(a))[k - 1] <= u,
+        u < rule_times(a, y, start_first(a))[k],
+    ensures
+        in_dst(a, u) == seg_is_dst(start_first(a), k),
+        !alt_defect_class(a, u),
+{
+    hide(alt_s);
+    hide(alt_e);
+    hide(dby);
+    hide(alt_wf);
+    hide(in_dst);
+    lemma_alt_near(a, u, y);
+    lemma_rule_times(a, y);
+    if !start_first(a) {
+        assert(forall|yy: int| alt_e(a, yy) < #[trigger] alt_s(a, yy)) by {
+            if forall|yy: int| alt_s(a, yy) < #[trigger] alt_e(a, yy) && alt_e(a, yy) < alt_s(a, yy + 1) {
+                assert forall|yy: int| alt_s(a, yy) <= #[trigger] alt_e(a, yy) by {
+                    assert(alt_s(a, yy) < alt_e(a, yy));
+                }
+            }
+        }
+    } else {
+        assert(!alt_defect_class(a, u));
+    }
+}
+
+// every instant below the sentinel lies in one segment of a strictly ascending walk
+proof fn lemma_find_segment(t: Seq<int>, u: int)
+    requires
+        times_increasing(t),
+        u < t[6],
+    ensures
+        exists|k: int| 0 <= k <= 6 && (k > 0 ==> t[k - 1] <= u) && u < #[trigger] t[k],
+{
+    if u < t[0] {
+        assert(u < t[0]);
+    } else if u < t[1] {
+        assert(t[0] <= u && u < t[1]);
+    } else if u < t[2] {
+        assert(t[1] <= u && u < t[2]);
+    } else if u < t[3] {
+        assert(t[2] <= u && u < t[3]);
+    } else if u < t[4] {
+        assert(t[3] <= u && u < t[4]);
+    } else if u < t[5] {
+        assert(t[4] <= u && u < t[5]);
+    } else {
+        assert(t[5] <= u && u < t[6]);
+    }
+}
+
+// an instant at or after the last table transition (or in a zone without table) on which the trailing rule answers lt
+proof fn lemma_rule_sound(z: TimeZoneRef, u: int, lt: LocalTimeType)
+    requires
+        zone_wf_base(z),
+        *z.extra_rule is Some,
+        rule_answer((*z.extra_rule)->Some_0, u, lt),
+        utc_min() <= u <= utc_max(),
+        z.transitions@.len() > 0 ==> u >= g_spec(z.leap_seconds@, z.transitions@[z.transitions@.len() - 1].unix_leap_time as int),
+    ensures
+        lookup_ok(z, u, lt),
+{
+    lemma_range_consts();
+    if z.transitions@.len() == 0 {
+        lemma_lookup_cases(z, u, 0);
+    } else {
+        lemma_f_exists(z.leap_seconds@, u, 0);
+        let t = choose|t: int| #[trigger] is_f(z.leap_seconds@, u, t) && u - 2147483648 <= t <= u + 2147483647;
+        prop_c12_galois(z.leap_seconds@, u, t, z.transitions@[z.transitions@.len() - 1].unix_leap_time as int);
+        lemma_lookup_cases(z, u, t);
+    }
+}
+
+// a count below the last transition whose table answer shows the searched time: its slot was hit
+proof fn lemma_found_in_table(z: TimeZoneRef, q: FindQuery, rs: Seq<FoundDateTimeKind>, u: int, lt: LocalTimeType, t: int)
+    requires
+        zone_wf_base(z),
+        z.transitions@.len() > 0,
+        slots_found(z, q, rs, z.transitions@.len() as int),
+        is_f(z.leap_seconds@, u, t),
+        t < z.transitions@[z.transitions@.len() - 1].unix_leap_time,
+        table_type_is(z.transitions@, z.local_time_types@, t, lt),
+        u + lt.ut_offset == q_civil(q),
+    ensures
+        i64::MIN <= u <= i64::MAX && has_normal(rs, q_dt(q, lt, u as i64)),
+{
+    let tr = z.transitions@;
+    if t < tr[0].unix_leap_time {
+        assert(u == slot_cand(z, q, 0));
+        assert(slot_hit(z, q, 0));
+    } else {
+        lemma_find_slot(tr, t, 0);
+        let i = choose|i: int| #[trigger] in_slot(tr, i, t);
+        assert(lt == type_before(z, i + 1));
+        assert(u == slot_cand(z, q, i + 1));
+        assert(slot_hit(z, q, i + 1));
+    }
+}
+
+// an instant in the trailing rule's domain whose rule answer shows the searched time: its segment of the walk was hit
+proof fn lemma_found_in_rule(z: TimeZoneRef, q: FindQuery, a: AlternateTime, sorted: bool, t: Seq<int>, fv: int, rs: Seq<FoundDateTimeKind>, u: int, lt: LocalTimeType)
+    requires
+        *z.extra_rule == Some(TransitionRule::Alternate(a)),
+        alt_wf(a),
+        rule_scope(z, q),
+        -2147483646 <= q.year <= 2147483645,
+        dby(q.year as int) * 86400 <= q_civil(q) <= dby(q.year as int + 1) * 86400,
+        sorted == start_first(a),
+        t == rule_times(a, q.year as int, sorted),
+        0 <= fv <= 7,
+        forall|i: int| 0 <= i < fv ==> t[i] <= rule_from(z),
+        segs_found(q, a, sorted, t, rule_from(z), rs, fv, 7),
+        alt_answer(a, u, lt),
+        rule_from(z) <= u,
+        u + lt.ut_offset == q_civil(q),
+    ensures
+        i64::MIN <= u <= i64::MAX && has_normal(rs, q_dt(q, lt, u as i64)),
+{
+    hide(alt_wf);
+    hide(in_dst);
+    hide(alt_defect_class);
+    hide(dby);
+    let y = q.year as int;
+    lemma_rule_times(a, y);
+    lemma_dby_bounds(y);
+    lemma_dby_bounds(y + 1);
+    assert(-90000 < lt.ut_offset < 93600) by { reveal(alt_wf); }
+    assert(near_year(u, y));
+    assert(u < t[6]);
+    lemma_find_segment(t, u);
+    let k = choose|k: int| 0 <= k <= 6 && (k > 0 ==> t[k - 1] <= u) && u < #[trigger] t[k];
+    lemma_segment(a, y, u, k);
+    assert(lt == seg_type(a, sorted, k));
+    if k < fv {
+        assert(t[k] <= rule_from(z));
+    }
+    assert(in_seg(t, rule_from(z), k, q_civil(q) - seg_type(a, sorted, k).ut_offset));
+}
+
+// C05 completeness for a zone with a (strictly interleaving) DST rule, with or without table
+proof fn lemma_all_found_rule(z: TimeZoneRef, q: FindQuery, a: AlternateTime, sorted: bool, t: Seq<int>, fv: int, rs: Seq<FoundDateTimeKind>)
+    requires
+        zone_wf_base(z),
+        *z.extra_rule == Some(TransitionRule::Alternate(a)),
+        alt_wf(a),
+        rule_scope(z, q),
+        -2147483646 <= q.year <= 2147483645,
+        dby(q.year as int) * 86400 <= q_civil(q) <= dby(q.year as int + 1) * 86400,
+        sorted == start_first(a),
+        t == rule_times(a, q.year as int, sorted),
+        0 <= fv <= 7,
+        forall|i: int| 0 <= i < fv ==> t[i] <= rule_from(z),
+        segs_found(q, a, sorted, t, rule_from(z), rs, fv, 7),
+        z.transitions@.len() > 0 ==> slots_found(z, q, rs, z.transitions@.len() as int),
+    ensures
+        all_found(z, q, rs),
+{
+    hide(alt_wf);
+    hide(alt_answer);
+    let tr = z.transitions@;
+    let n = tr.len() as int;
+    assert forall|u: int, lt: LocalTimeType| #[trigger] clock_shows(z, q, u, lt) implies i64::MIN <= u <= i64::MAX && has_normal(rs, q_dt(q, lt, u as i64)) by {
+        if n > 0 {
+            let tc = choose|tc: int| #[trigger] is_f(z.leap_seconds@, u, tc) && i64::MIN <= tc <= i64::MAX && (
+                if tc >= tr[n - 1].unix_leap_time {
+                    match *z.extra_rule {
+                        Some(rule) => rule_answer(rule, u, lt),
+                        None => false,
+                    }
+                } else {
+                    table_type_is(tr, z.local_time_types@, tc, lt)
+                });
+            if tc >= tr[n - 1].unix_leap_time {
+                prop_c12_galois(z.leap_seconds@, u, tc, tr[n - 1].unix_leap_time as int);
+                lemma_found_in_rule(z, q, a, sorted, t, fv, rs, u, lt);
+            } else {
+                lemma_found_in_table(z, q, rs, u, lt, tc);
+            }
+        } else {
+            lemma_found_in_rule(z, q, a, sorted, t, fv, rs, u, lt);
+        }
+    }
+}
+
+proof fn lemma_segs_push(q: FindQuery, a: AlternateTime, sorted: bool, t: Seq<int>, p0: int, rs: Seq<FoundDateTimeKind>, lo: int, hi: int, k: FoundDateTimeKind)
+    requires
+        segs_found(q, a, sorted, t, p0, rs, lo, hi),
+    ensures
+        segs_found(q, a, sorted, t, p0, rs.push(k), lo, hi),
+{
+    assert forall|j: int| lo <= j < hi && #[trigger] in_seg(t, p0, j, q_civil(q) - seg_type(a, sorted, j).ut_offset)
+        implies has_normal(rs.push(k), q_dt(q, seg_type(a, sorted, j), (q_civil(q) - seg_type(a, sorted, j).ut_offset) as i64)) by {
+        lemma_has_normal_push(rs, q_dt(q, seg_type(a, sorted, j), (q_civil(q) - seg_type(a, sorted, j).ut_offset) as i64), k);
+    }
+}
+
+proof fn lemma_segs_next(q: FindQuery, a: AlternateTime, sorted: bool, t: Seq<int>, p0: int, rs: Seq<FoundDateTimeKind>, lo: int, k: int)
+    requires
+        segs_found(q, a, sorted, t, p0, rs, lo, k),
+        in_seg(t, p0, k, q_civil(q) - seg_type(a, sorted, k).ut_offset) ==> has_normal(rs, q_dt(q, seg_type(a, sorted, k), (q_civil(q) - seg_type(a, sorted, k).ut_offset) as i64)),
+    ensures
+        segs_found(q, a, sorted, t, p0, rs, lo, k + 1),
+{
+}
+
+proof fn lemma_near_year(q: FindQuery, off: int)
+    requires
+        valid_date(q.year as int, q.month as int, q.month_day as int),
+        q.hour < 24,
+        q.minute < 60,
+        q.second <= 60,
+        -93600 <= off <= 93600,
+    ensures
+        near_year(q_civil(q) - off, q.year as int),
+        dby(q.year as int) * 86400 <= q_civil(q) <= dby(q.year as int + 1) * 86400,
+{
+    lemma_secs_in_year(q.year as int, q.month as int, q.month_day as int, q.hour as int, q.minute as int, q.second as int);
+}
